@@ -251,7 +251,7 @@ def is_zero_value(v, coords, rng, numeric=False):
     return True if good else None
 
 
-def same_value(a, b, coords, rng, numeric=False):
+def same_value(a, b, coords, rng, numeric=False, tol=1e-35):
     """decide a == b (scalars or matrices of equal shape): exact for rational functions, otherwise
     60-digit evaluation at random rational points with a relative tolerance.  None = undecided."""
     if isinstance(a, (Matrix, ImmutableDenseMatrix)) or isinstance(b, (Matrix, ImmutableDenseMatrix)):
@@ -259,7 +259,7 @@ def same_value(a, b, coords, rng, numeric=False):
             return False
         if a.shape != b.shape:
             return False
-        res = [same_value(a[i], b[i], coords, rng, numeric) for i in range(len(a))]
+        res = [same_value(a[i], b[i], coords, rng, numeric, tol) for i in range(len(a))]
         if any(r is False for r in res):
             return False
         return None if any(r is None for r in res) else True
@@ -279,7 +279,7 @@ def same_value(a, b, coords, rng, numeric=False):
             va = numeval(a, pt)
             vb = numeval(b, pt)
             scale = abs(va) + abs(vb) + 1
-            if abs(va - vb) > 1e-35 * scale:
+            if abs(va - vb) > tol * scale:
                 return False
             good += 1
         except (TypeError, ValueError, ZeroDivisionError, OverflowError, NameError, AttributeError):
